@@ -663,15 +663,15 @@ def ff(b):
     """fold a special-value flag to False when the hypotheses exclude it"""
     if isinstance(b, bool):
         return b
-    b = z3.simplify(b)
-    if z3.is_true(b):
+    sb = z3.simplify(b)
+    if z3.is_true(sb):
         return True
-    if z3.is_false(b):
+    if z3.is_false(sb):
         return False
     c = Ctx.cur
-    if c is not None and c.known_false(b):
+    if c is not None and c.known_false(sb):
         return False
-    return b
+    return b       # keep the original (un-normalised) term: later syntactic substitution relies on term identity
 
 
 def mkxr(v, nan, pinf, ninf, npk):
